@@ -45,6 +45,28 @@ PROTOS = (0, 2, 4, 5)
 SUFFIXES = ["zero", "rnd", "self", "other"]
 
 
+def get_obj(name):
+    if name.startswith("rand:"):
+        _, seed, size = name.split(":")
+        return random.Random(int(seed)).randbytes(int(size))
+    return OBJS[name]
+
+
+def aligned_objects(comp, proto, residues=(1, 2, 3, 4, 6, 8)):
+    """Incompressible payloads whose compressed file ends just past a multiple of the 8192-byte read block, so that the
+    last raw block holds only (part of) the stream trailer -- the end-of-stream is then reached by a block that yields
+    no data."""
+    found = {}
+    for size in range(24300, 24900):
+        name = "rand:7:%d" % size
+        r = len(dump_bytes(get_obj(name), comp, proto)) % 8192
+        if r in residues and r not in found:
+            found[r] = name
+        if len(found) == len(residues):
+            break
+    return [found[r] for r in sorted(found)]
+
+
 def dump_bytes(obj, comp, proto):
     b = io.BytesIO()
     joblib.dump(obj, b, compress=tuple(comp) if isinstance(comp, list) else comp, protocol=proto)
@@ -74,6 +96,12 @@ def plan(tier, seed):
                 sample = [["trunc", c] for c in sorted(set([0, 1, L // 2, L - 1]) & set(cuts) | set(rng.sample(cuts, min(6, len(cuts)))))] + \
                          [["ext", s] for s in SUFFIXES]
                 yield {"obj": oname, "comp": comp, "proto": proto, "damages": sample, "via": "path", "len": L}
+    # streams ending right after a block boundary (zlib / gzip readers refill in 8192-byte raw blocks)
+    for comp in (["zlib", 1], ["zlib", 9], ["gzip", 3]):
+        for name in aligned_objects(comp, 4):
+            L = len(dump_bytes(get_obj(name), comp, 4))
+            dam = [["ext", s_] for s_ in SUFFIXES] + [["trunc", c] for c in (L - 1, L - 2, L - 5, L - 9, 8192, 16384, L - (L % 8192), L - (L % 8192) - 1)]
+            yield {"obj": name, "comp": comp, "proto": 4, "damages": dam, "via": "fileobj", "len": L}
     # Memory entries
     for comp in (False, True, 3):
         for pad in (0, 9000):
@@ -126,7 +154,7 @@ def run_case(case):
     resource.setrlimit(resource.RLIMIT_AS, (2000 * 1024 * 1024, 2000 * 1024 * 1024))
     if case.get("memory"):
         return run_memory_case(case)
-    obj = OBJS[case["obj"]]
+    obj = get_obj(case["obj"])
     data = dump_bytes(obj, case["comp"], case["proto"])
     other = dump_bytes(["other"], case["comp"], case["proto"])
     (k, v), steps = load_budgeted(lambda: joblib.load(io.BytesIO(data)), 10 ** 8)
